@@ -1,6 +1,7 @@
 """E3/E4 -- executor for (program, schedule) cases with always-on monitors (public API only)."""
 
 import asyncio
+import contextlib
 import gc
 
 from plumpy import ProcessState
@@ -67,7 +68,15 @@ class Exec:
     # -- lifecycle ---------------------------------------------------------------------------
     def __enter__(self):
         self.loop = StepLoop()
-        asyncio.set_event_loop(self.loop)
+        self.decoy = None
+        if self.case.get('decoy_loop'):
+            # the process gets a loop of its own (the `loop=` parameter): the thread's default loop is another one that
+            # never runs, and the process is constructed while no loop is running - whatever the library puts on the
+            # default loop instead of the process's loop is lost
+            self.decoy = StepLoop()
+            asyncio.set_event_loop(self.decoy)
+        else:
+            asyncio.set_event_loop(self.loop)
         self.world = world.reset(self.loop)
         self.world.sample_current = self.sample_current
         return self
@@ -92,6 +101,8 @@ class Exec:
         except Exception:  # noqa: BLE001
             pass
         self.loop.shutdown()
+        if self.decoy is not None:
+            self.decoy.shutdown()
         asyncio.set_event_loop(None)
         world.reset(None)  # late writes (if any) land in a world nobody reads
         self.proc = None
@@ -107,7 +118,7 @@ class Exec:
         pid = case.get('pid', 1)
         self.world.listener_plan[pid] = case.get('listener', [])
         self.world.hook_plan[pid] = case.get('hooks', [])
-        with self.loop.as_running():
+        with contextlib.nullcontext() if self.decoy is not None else self.loop.as_running():
             try:
                 self.proc = cls(inputs=programs.dec(case.get('inputs', (case.get('program') or {}).get('inputs'))), pid=pid, loop=self.loop, communicator=self.communicator)
             except Exception as exc:  # noqa: BLE001
@@ -195,7 +206,7 @@ class Exec:
         """Restore a process from serialised ``data`` into this (fresh) loop and attach the monitors."""
         from . import media
 
-        with self.loop.as_running():
+        with contextlib.nullcontext() if self.decoy is not None else self.loop.as_running():
             proc = media.load(data, medium, self.loop, loader=loader)
         pid = proc.pid
         self.world.incarnation[pid] = self.world.incarnation.get(pid, 0) + 1
@@ -223,6 +234,7 @@ class Exec:
             outcome_signature(p),
         )
         self.samples.append(rec)
+        self.world.extra['n_samples'] = len(self.samples)
         return rec
 
     @property
@@ -316,6 +328,10 @@ class Exec:
             self.events.append({'ev': ev})
             self.sample(kind)
             return None
+        if kind == 'killw':
+            # a kill request whose caller gives up on it at once (see 'withdraw')
+            self.event(['kill', ev[1] if len(ev) > 1 else None], who=who)
+            return self.event(['withdraw', 'kill'], who=who)
         if kind == 'withdraw':
             # the caller gives up waiting for its last pending kill (asyncio.wait_for(proc.kill(), t) timing out cancels
             # the future that kill() returned): that request is withdrawn, the process stays controllable
@@ -503,6 +519,11 @@ class Exec:
             out['closed'] = True
         except Exception as exc:  # noqa: BLE001
             out['closed'] = f'error:{type(exc).__name__}'
+        if self.decoy is not None:
+            # what was put on the thread's default loop although the process runs on its own: callbacks and timers
+            out['decoy_scheduled'] = len(self.decoy._ready) + len(self.decoy._scheduled)
+            out['loop_is_own'] = p.loop is self.loop
+            out['future_loop_is_own'] = fut.get_loop() is self.loop
         if self.task is not None:
             out['task_harness_cancelled'] = getattr(self, 'harness_cancelled', None) is self.task
             out['task_done'] = self.task.done()
